@@ -173,6 +173,12 @@ func runC12(t *testing.T, e *worlds.Env, tier string) (bool, any) {
 				}
 				sample.Matcher = fmt.Sprintf("spec need=%d", need)
 			}
+			if sample.Matcher == "proxy_protocol" {
+				// the route is entered through the shipped matcher: a complete well-formed
+				// header must be recognised however it was split
+				m0 := HSpec{Kind: "vmark", Name: "M0"}
+				hs = append(hs, b.Handler(&m0, sig))
+			}
 			ph := HSpec{Kind: "pp", Name: "pp", Allow: allow}
 			hs = append(hs, b.Handler(&ph, sig))
 			model.App = append(append([]byte(nil), hdrBytes...), payload...)
@@ -304,6 +310,18 @@ func runC12(t *testing.T, e *worlds.Env, tier string) (bool, any) {
 		if declares {
 			effSrc, effDst = hdr.Src.String(), hdr.Dst.String()
 		}
+		if mode != 1 && sample.Matcher == "proxy_protocol" && !aborted && model.WroteAll && cl.WriteErr == nil {
+			entered := false
+			for _, hc := range model.HandlerCalls {
+				if hc.Handler == "M0" {
+					entered = true
+				}
+			}
+			if !entered {
+				fail("header-not-recognised", "the client sent a complete well-formed %s (client chunks %v) and the rest of its stream, but the route behind the proxy_protocol matcher never ran", sample.Header, chunkSizes(cl.Plan.Chunks, 6))
+				return
+			}
+		}
 		// receiver side: what handlers after the proxy_protocol handler saw
 		if mode != 1 && (declares || !allowed) {
 			// (UNKNOWN / LOCAL headers declare no addresses: what handlers see then is
@@ -389,4 +407,16 @@ func runC12(t *testing.T, e *worlds.Env, tier string) (bool, any) {
 	})
 	nontrivial := len(sample.Seen) > 0 || sample.UpHeader != ""
 	return nontrivial, sample
+}
+
+
+func chunkSizes(cs []worlds.Chunk, n int) []int {
+	var out []int
+	for i, c := range cs {
+		if i >= n {
+			break
+		}
+		out = append(out, c.N)
+	}
+	return out
 }
